@@ -524,9 +524,11 @@ impl Hasher for CaoHasher {
 fn hash<T: ?Sized + Hash>(t: &T) -> u64 {
     let mut hasher = CaoHasher::default();
     t.hash(&mut hasher);
-    let result = hasher.finish();
-    debug_assert_ne!(result, 0, "0 hash is reserved");
-    result
+    // 0 is reserved, it marks empty slots
+    match hasher.finish() {
+        0 => 1,
+        result => result,
+    }
 }
 
 /// # Safety
